@@ -7,6 +7,7 @@ import ZapVerif.Proofs.Base64
 import ZapVerif.Model.Binary
 import ZapVerif.Proofs.SubEnc
 import ZapVerif.Gen.SubEncSrc
+import ZapVerif.Proofs.TransJsonEntry
 /-! # C02 — JSON output decodes to exactly the logged values, in order, at the right nesting -/
 namespace ZapVerif.C02
 open ZapVerif ZapVerif.Esc ZapVerif.Json ZapVerif.Enc ZapVerif.Entry
@@ -451,5 +452,252 @@ example : callerText .short true (litStr "/home/u/go/src/pkg/sub/file.go") 42 = 
 
 end SubEncoders
 /-! ## (END block `subenc`) -/
+
+end ZapVerif.C02
+
+/-! ## `jsonEncoder.EncodeEntry` IS the source (table `Gen/TransJsonEnc.lean`)
+
+The body of zapcore/json_encoder.go `EncodeEntry`, translated mechanically, is interpreted for EVERY configuration (keys
+empty or not, sub-encoders nil or not), every entry, every context buffer of the logger's encoder and every behaviour
+of the sub-encoders and of `addFields` (parameters).  Statement by statement (`EE_*`) and as a whole
+(`EncodeEntry_matches_source`) it computes `TransJsonEnc.entryBytes`: clone, `{`, the six metadata members each behind
+its guard and with its fall-back when the configured encoder appended nothing, the raw context bytes after a
+SEPARATOR (`addElementSeparator`, not a hard-coded comma), the fields, `closeOpenNamespaces`, the stack, `}`, the line
+ending; the buffer is read (`ret := final.buf`) BEFORE `putJSONEncoder(final)`, which is the last thing that happens. -/
+namespace ZapVerif.C02
+set_option linter.unusedSimpArgs false
+open ZapVerif ZapVerif.Enc ZapVerif.GoMini ZapVerif.TransJsonEnc ZapVerif.Gen.TransJsonEnc
+
+/-- the k-th top-level statement of the body -/
+def eeStmt : Nat → Stmt → Stmt
+  | 0, s => s.hd
+  | k + 1, s => eeStmt k s.tl
+
+/-- the locals every statement of the body relies on: the two parameters -/
+def LocOK (loc : Env) (e : EEnt) (fields : Val) : Prop := loc.get "p0" = some e.val ∧ loc.get "p1" = some fields
+
+theorem LocOK.set {loc : Env} {e : EEnt} {fields : Val} (h : LocOK loc e fields) (x : String) (v : Val)
+    (h0 : x ≠ "p0") (h1 : x ≠ "p1") : LocOK (loc.set x v) e fields :=
+  ⟨by rw [Env.get_set_other _ _ _ _ (Ne.symm h0)]; exact h.1, by rw [Env.get_set_other _ _ _ _ (Ne.symm h1)]; exact h.2⟩
+
+/-- `final := enc.clone()`: fresh buffer, `spaced` and `openNamespaces` of the receiver, no reflection scratch -/
+theorem EE_clone (P : Par) (c : ECfg) (b : Bytes) (sp : Bool) (ns : Int) (rb re : List Val)
+    (obuf : Bytes) (osp : Bool) (ons : Int) (self : Val) (ev : List Val) (rec : Stmt → State → GoMini.Out) (loc : Env) :
+    execS (X P) rec (eeStmt 0 EncodeEntry_body) ⟨loc, eeFld c b sp ns rb re obuf osp ons self ev⟩ =
+      .normal ⟨loc, eeFld c [] osp ons [] [] obuf osp ons self
+        (ev ++ [.list [TransJsonEnc.nm "jsonEncoder.clone", .bool osp, .int ons]])⟩ := by
+  simp [eeStmt, Stmt.hd, Stmt.tl, EncodeEntry_body, nm_clone]
+
+theorem EE_open (P : Par) (c : ECfg) (b : Bytes) (sp : Bool) (ns : Int) (rb re : List Val)
+    (obuf : Bytes) (osp : Bool) (ons : Int) (self : Val) (ev : List Val) (rec : Stmt → State → GoMini.Out) (loc : Env) :
+    execS (X P) rec (eeStmt 1 EncodeEntry_body) ⟨loc, eeFld c b sp ns rb re obuf osp ons self ev⟩ =
+      .normal ⟨loc, eeFld c (b ++ [123]) sp ns rb re obuf osp ons self ev⟩ := by
+  simp [eeStmt, Stmt.hd, Stmt.tl, EncodeEntry_body]
+
+theorem EE_level (P : Par) (c : ECfg) (e : EEnt) (fields : Val) (b : Bytes) (sp : Bool) (ns : Int) (rb re : List Val)
+    (obuf : Bytes) (osp : Bool) (ons : Int) (self : Val) (ev : List Val) (rec : Stmt → State → GoMini.Out)
+    (loc : Env) (hl : LocOK loc e fields) :
+    ∃ loc', execS (X P) rec (eeStmt 2 EncodeEntry_body) ⟨loc, eeFld c b sp ns rb re obuf osp ons self ev⟩ =
+        .normal ⟨loc', eeFld c (levelBlock P c sp e b) sp ns rb re obuf osp ons self ev⟩ ∧ LocOK loc' e fields := by
+  obtain ⟨h0, h1⟩ := hl
+  have hne : ∀ x y : String, x ≠ y → ∀ (v : Val) (en : Env), Env.get x (Env.set y v en) = Env.get x en :=
+    fun x y h v en => Env.get_set_other x y v en h
+  cases hk : c.levelKey with
+  | nil => exact ⟨loc, by simp [eeStmt, Stmt.hd, Stmt.tl, EncodeEntry_body, levelBlock, hk], h0, h1⟩
+  | cons k ks =>
+    cases hf : c.encLevel with
+    | nil => exact ⟨loc, by simp [eeStmt, Stmt.hd, Stmt.tl, EncodeEntry_body, levelBlock, hk, hf], h0, h1⟩
+    | cons f fs =>
+      have hpos : ¬ ((fs.length : Int) + 1 = 0) := by omega
+      have g0 : ∀ v, Env.get "p0" (Env.set "l0" v loc) = some e.val := fun v => by rw [hne _ _ (by decide)]; exact h0
+      have g1 : ∀ v, Env.get "p1" (Env.set "l0" v loc) = some fields := fun v => by rw [hne _ _ (by decide)]; exact h1
+      refine ⟨loc.set "l0" (.int (Enc.addKey sp b c.levelKey).length), ?_, g0 _, g1 _⟩
+      by_cases hq : (Enc.addKey sp b (k :: ks)).length = (P.subLevel (f :: fs) (.int e.level) sp (Enc.addKey sp b (k :: ks))).length
+      · simp [eeStmt, Stmt.hd, Stmt.tl, EncodeEntry_body, levelBlock, subOr, hk, hf, hpos, h0, g0, hq, Int.natCast_inj]
+      · simp [eeStmt, Stmt.hd, Stmt.tl, EncodeEntry_body, levelBlock, subOr, hk, hf, hpos, h0, g0, hq, Int.natCast_inj]
+
+theorem EE_time (P : Par) (c : ECfg) (e : EEnt) (fields : Val) (b : Bytes) (sp : Bool) (ns : Int) (rb re : List Val)
+    (obuf : Bytes) (osp : Bool) (ons : Int) (self : Val) (ev : List Val) (rec : Stmt → State → GoMini.Out)
+    (loc : Env) (hl : LocOK loc e fields) :
+    execS (X P) rec (eeStmt 3 EncodeEntry_body) ⟨loc, eeFld c b sp ns rb re obuf osp ons self ev⟩ =
+        .normal ⟨loc, eeFld c (timeBlock P c sp e b) sp ns rb re obuf osp ons self ev⟩ := by
+  obtain ⟨h0, h1⟩ := hl
+  cases hk : c.timeKey with
+  | nil => simp [eeStmt, Stmt.hd, Stmt.tl, EncodeEntry_body, timeBlock, hk]
+  | cons k ks =>
+    cases hz : P.timeIsZero e.time <;>
+      simp [eeStmt, Stmt.hd, Stmt.tl, EncodeEntry_body, timeBlock, hk, hz, h0]
+
+theorem EE_name (P : Par) (c : ECfg) (e : EEnt) (fields : Val) (b : Bytes) (sp : Bool) (ns : Int) (rb re : List Val)
+    (obuf : Bytes) (osp : Bool) (ons : Int) (self : Val) (ev : List Val) (rec : Stmt → State → GoMini.Out)
+    (loc : Env) (hl : LocOK loc e fields) :
+    ∃ loc', execS (X P) rec (eeStmt 4 EncodeEntry_body) ⟨loc, eeFld c b sp ns rb re obuf osp ons self ev⟩ =
+        .normal ⟨loc', eeFld c (nameBlock P c sp e b) sp ns rb re obuf osp ons self ev⟩ ∧ LocOK loc' e fields := by
+  have h0 := hl.1
+  cases hn : e.name with
+  | nil => exact ⟨loc, by simp [eeStmt, Stmt.hd, Stmt.tl, EncodeEntry_body, nameBlock, hn, h0], hl⟩
+  | cons n0 nr =>
+    cases hk : c.nameKey with
+    | nil => exact ⟨loc, by simp [eeStmt, Stmt.hd, Stmt.tl, EncodeEntry_body, nameBlock, hn, hk, h0], hl⟩
+    | cons k ks =>
+      have hset : ∀ v w, LocOK ((loc.set "l1" v).set "l2" w) e fields := fun v w =>
+        (hl.set "l1" v (by decide) (by decide)).set "l2" w (by decide) (by decide)
+      have g0 : ∀ v w, Env.get "p0" ((loc.set "l1" v).set "l2" w) = some e.val := fun v w => (hset v w).1
+      have g1 : ∀ v w, Env.get "l1" ((loc.set "l1" v).set "l2" w) = some v := fun v w => by
+        rw [Env.get_set_other _ _ _ _ (by decide)]; simp
+      have g00 : ∀ v, Env.get "p0" (loc.set "l1" v) = some e.val := fun v => (hl.set "l1" v (by decide) (by decide)).1
+      cases hf : c.encName with
+      | nil =>
+        refine ⟨(loc.set "l1" (.int (Enc.addKey sp b c.nameKey).length)).set "l2" (.list [.int 0]), ?_, hset _ _⟩
+        by_cases hq : (Enc.addKey sp b (k :: ks)).length = (P.subName [.int 0] (.bytes (n0 :: nr)) (Enc.addKey sp b (k :: ks))).length
+        · simp [eeStmt, Stmt.hd, Stmt.tl, EncodeEntry_body, nameBlock, nameFn, subOr, hn, hk, hf, h0, g0, g1, g00, hq, Int.natCast_inj]
+        · simp [eeStmt, Stmt.hd, Stmt.tl, EncodeEntry_body, nameBlock, nameFn, subOr, hn, hk, hf, h0, g0, g1, g00, hq, Int.natCast_inj]
+      | cons f fs =>
+        have hpos : ¬ ((fs.length : Int) + 1 = 0) := by omega
+        refine ⟨(loc.set "l1" (.int (Enc.addKey sp b c.nameKey).length)).set "l2" (.list (f :: fs)), ?_, hset _ _⟩
+        by_cases hq : (Enc.addKey sp b (k :: ks)).length = (P.subName (f :: fs) (.bytes (n0 :: nr)) (Enc.addKey sp b (k :: ks))).length
+        · simp [eeStmt, Stmt.hd, Stmt.tl, EncodeEntry_body, nameBlock, nameFn, subOr, hn, hk, hf, hpos, h0, g0, g1, g00, hq, Int.natCast_inj]
+        · simp [eeStmt, Stmt.hd, Stmt.tl, EncodeEntry_body, nameBlock, nameFn, subOr, hn, hk, hf, hpos, h0, g0, g1, g00, hq, Int.natCast_inj]
+
+theorem EE_caller (P : Par) (c : ECfg) (e : EEnt) (fields : Val) (b : Bytes) (sp : Bool) (ns : Int) (rb re : List Val)
+    (obuf : Bytes) (osp : Bool) (ons : Int) (self : Val) (ev : List Val) (rec : Stmt → State → GoMini.Out)
+    (loc : Env) (hl : LocOK loc e fields) :
+    ∃ loc', execS (X P) rec (eeStmt 5 EncodeEntry_body) ⟨loc, eeFld c b sp ns rb re obuf osp ons self ev⟩ =
+        .normal ⟨loc', eeFld c (callerBlock P c sp e b) sp ns rb re obuf osp ons self ev⟩ ∧ LocOK loc' e fields := by
+  have h0 := hl.1
+  cases hd : e.callerDefined with
+  | false => exact ⟨loc, by simp [eeStmt, Stmt.hd, Stmt.tl, EncodeEntry_body, callerBlock, hd, h0], hl⟩
+  | true =>
+    have hset : ∀ v, LocOK (loc.set "l3" v) e fields := fun v => hl.set "l3" v (by decide) (by decide)
+    have g0 : ∀ v, Env.get "p0" (loc.set "l3" v) = some e.val := fun v => (hset v).1
+    cases hk : c.callerKey with
+    | nil =>
+      refine ⟨loc, ?_, hl⟩
+      cases hfk : c.functionKey <;>
+        simp [eeStmt, Stmt.hd, Stmt.tl, EncodeEntry_body, callerBlock, hd, hk, hfk, h0]
+    | cons k ks =>
+      cases hf : c.encCaller with
+      | nil =>
+        refine ⟨loc, ?_, hl⟩
+        cases hfk : c.functionKey <;>
+          simp [eeStmt, Stmt.hd, Stmt.tl, EncodeEntry_body, callerBlock, hd, hk, hf, hfk, h0]
+      | cons f fs =>
+        have hpos : ¬ ((fs.length : Int) + 1 = 0) := by omega
+        refine ⟨loc.set "l3" (.int (Enc.addKey sp b c.callerKey).length), ?_, hset _⟩
+        by_cases hq : (Enc.addKey sp b (k :: ks)).length = (P.subCaller (f :: fs) e.caller sp (Enc.addKey sp b (k :: ks))).length <;>
+          cases hfk : c.functionKey <;>
+          simp [eeStmt, Stmt.hd, Stmt.tl, EncodeEntry_body, callerBlock, subOr, hd, hk, hf, hfk, hpos, h0, g0, hq, Int.natCast_inj]
+
+theorem EE_message (P : Par) (c : ECfg) (e : EEnt) (fields : Val) (b : Bytes) (sp : Bool) (ns : Int) (rb re : List Val)
+    (obuf : Bytes) (osp : Bool) (ons : Int) (self : Val) (ev : List Val) (rec : Stmt → State → GoMini.Out)
+    (loc : Env) (hl : LocOK loc e fields) :
+    execS (X P) rec (eeStmt 6 EncodeEntry_body) ⟨loc, eeFld c b sp ns rb re obuf osp ons self ev⟩ =
+        .normal ⟨loc, eeFld c (messageBlock c sp e b) sp ns rb re obuf osp ons self ev⟩ := by
+  have h0 := hl.1
+  cases hk : c.messageKey <;> simp [eeStmt, Stmt.hd, Stmt.tl, EncodeEntry_body, messageBlock, hk, h0]
+
+/-- the logger's context: a SEPARATOR (the last byte decides), then the raw bytes — only when there are any -/
+theorem EE_ctx (P : Par) (c : ECfg) (b : Bytes) (sp : Bool) (ns : Int) (rb re : List Val)
+    (obuf : Bytes) (osp : Bool) (ons : Int) (self : Val) (ev : List Val) (rec : Stmt → State → GoMini.Out) (loc : Env) :
+    execS (X P) rec (eeStmt 7 EncodeEntry_body) ⟨loc, eeFld c b sp ns rb re obuf osp ons self ev⟩ =
+        .normal ⟨loc, eeFld c (ctxBlock sp obuf b) sp ns rb re obuf osp ons self ev⟩ := by
+  cases obuf with
+  | nil => simp [eeStmt, Stmt.hd, Stmt.tl, EncodeEntry_body, ctxBlock]
+  | cons o os =>
+    have hpos : (0 : Int) < (os.length : Int) + 1 := by omega
+    simp [eeStmt, Stmt.hd, Stmt.tl, EncodeEntry_body, ctxBlock, hpos]
+
+theorem EE_fields (P : Par) (c : ECfg) (e : EEnt) (fields : Val) (b : Bytes) (sp : Bool) (ns : Int) (rb re : List Val)
+    (obuf : Bytes) (osp : Bool) (ons : Int) (self : Val) (ev : List Val) (rec : Stmt → State → GoMini.Out)
+    (loc : Env) (hl : LocOK loc e fields) :
+    execS (X P) rec (eeStmt 8 EncodeEntry_body) ⟨loc, eeFld c b sp ns rb re obuf osp ons self ev⟩ =
+        .normal ⟨loc, eeFld c (P.addFields fields sp ⟨b, ns, rb, re⟩).buf sp (P.addFields fields sp ⟨b, ns, rb, re⟩).ns
+          (P.addFields fields sp ⟨b, ns, rb, re⟩).rbuf (P.addFields fields sp ⟨b, ns, rb, re⟩).renc obuf osp ons self ev⟩ := by
+  simp [eeStmt, Stmt.hd, Stmt.tl, EncodeEntry_body, hl.2]
+
+theorem EE_closeNs (P : Par) (c : ECfg) (b : Bytes) (sp : Bool) (ns : Int) (rb re : List Val)
+    (obuf : Bytes) (osp : Bool) (ons : Int) (self : Val) (ev : List Val) (rec : Stmt → State → GoMini.Out) (loc : Env) :
+    execS (X P) rec (eeStmt 9 EncodeEntry_body) ⟨loc, eeFld c b sp ns rb re obuf osp ons self ev⟩ =
+        .normal ⟨loc, eeFld c (closeNs b ns) sp 0 rb re obuf osp ons self ev⟩ := by
+  simp [eeStmt, Stmt.hd, Stmt.tl, EncodeEntry_body]
+
+theorem EE_stack (P : Par) (c : ECfg) (e : EEnt) (fields : Val) (b : Bytes) (sp : Bool) (ns : Int) (rb re : List Val)
+    (obuf : Bytes) (osp : Bool) (ons : Int) (self : Val) (ev : List Val) (rec : Stmt → State → GoMini.Out)
+    (loc : Env) (hl : LocOK loc e fields) :
+    execS (X P) rec (eeStmt 10 EncodeEntry_body) ⟨loc, eeFld c b sp ns rb re obuf osp ons self ev⟩ =
+        .normal ⟨loc, eeFld c (stackBlock c sp e b) sp ns rb re obuf osp ons self ev⟩ := by
+  have h0 := hl.1
+  cases hs : e.stack <;> cases hk : c.stacktraceKey <;>
+    simp [eeStmt, Stmt.hd, Stmt.tl, EncodeEntry_body, stackBlock, hs, hk, h0]
+
+/-- `}`, the line ending, `ret := final.buf`, THEN `putJSONEncoder(final)` — the last thing that happens — and `return ret, nil` -/
+theorem EE_tail (P : Par) (c : ECfg) (b : Bytes) (sp : Bool) (ns : Int) (rb re : List Val)
+    (obuf : Bytes) (osp : Bool) (ons : Int) (self : Val) (ev : List Val) (rec : Stmt → State → GoMini.Out) (loc : Env) :
+    execS (X P) rec (EncodeEntry_body.tl.tl.tl.tl.tl.tl.tl.tl.tl.tl.tl) ⟨loc, eeFld c b sp ns rb re obuf osp ons self ev⟩ =
+        .ret [.bytes (b ++ 125 :: c.lineEnding), .list []]
+          ⟨loc.set "l4" (.bytes (b ++ 125 :: c.lineEnding)),
+           eeFld c (b ++ 125 :: c.lineEnding) sp ns rb re obuf osp ons self
+             (ev ++ [.list [TransJsonEnc.nm "putJSONEncoder", .list rb, self]])⟩ := by
+  simp [Stmt.tl, EncodeEntry_body, nm_put]
+
+/-- **EncodeEntry_matches_source**: for every configuration, entry, context and every behaviour of the sub-encoders
+    and of `addFields`, the interpreted `EncodeEntry` returns `entryBytes` and a nil error; the trace is the clone
+    first and `putJSONEncoder(final)` LAST (after the buffer was read) -/
+theorem EncodeEntry_matches_source (P : Par) (c : ECfg) (e : EEnt) (fields : Val) (b0 : Bytes) (sp0 : Bool) (ns0 : Int)
+    (rb0 re0 : List Val) (obuf : Bytes) (osp : Bool) (ons : Int) (self : Val) (ev : List Val) (fuel : Nat) :
+    run (X P) (fuel + 1) "EncodeEntry" [e.val, fields] (eeFld c b0 sp0 ns0 rb0 re0 obuf osp ons self ev) =
+      .done [.bytes (entryBytes P c osp ons obuf e fields), .list []]
+        (eeFld c (entryBytes P c osp ons obuf e fields) osp 0 (afterFields P c osp ons obuf e fields).rbuf
+          (afterFields P c osp ons obuf e fields).renc obuf osp ons self
+          (ev ++ [.list [TransJsonEnc.nm "jsonEncoder.clone", .bool osp, .int ons],
+                  .list [TransJsonEnc.nm "putJSONEncoder", .list (afterFields P c osp ons obuf e fields).rbuf, self]])) := by
+  refine run_of_fin (X P) _ _ Gen.TransJsonEnc.EncodeEntry [e.val, fields] _ _ _ rfl rfl ?_
+  show (exec (X P) (fuel + 1) EncodeEntry_body ⟨[("p0", e.val), ("p1", fields)], _⟩).fin = _
+  rw [exec_succ]
+  have hb : EncodeEntry_body =
+      .seq (eeStmt 0 EncodeEntry_body) (.seq (eeStmt 1 EncodeEntry_body) (.seq (eeStmt 2 EncodeEntry_body)
+      (.seq (eeStmt 3 EncodeEntry_body) (.seq (eeStmt 4 EncodeEntry_body) (.seq (eeStmt 5 EncodeEntry_body)
+      (.seq (eeStmt 6 EncodeEntry_body) (.seq (eeStmt 7 EncodeEntry_body) (.seq (eeStmt 8 EncodeEntry_body)
+      (.seq (eeStmt 9 EncodeEntry_body) (.seq (eeStmt 10 EncodeEntry_body)
+        EncodeEntry_body.tl.tl.tl.tl.tl.tl.tl.tl.tl.tl.tl)))))))))) := rfl
+  have hl0 : LocOK [("p0", e.val), ("p1", fields)] e fields := ⟨rfl, rfl⟩
+  generalize hrec : exec (X P) fuel = rec
+  rw [hb]
+  simp only [execS_seq]
+  rw [EE_clone]; simp only [Out.andThen_normal, execS_seq]
+  rw [EE_open]; simp only [Out.andThen_normal, execS_seq]
+  obtain ⟨loc2, h2, hl2⟩ := EE_level P c e fields ([] ++ [123]) osp ons [] [] obuf osp ons self
+    (ev ++ [.list [TransJsonEnc.nm "jsonEncoder.clone", .bool osp, .int ons]]) rec _ hl0
+  rw [h2]; simp only [Out.andThen_normal, execS_seq]
+  rw [EE_time P c e fields _ _ _ _ _ _ _ _ _ _ rec _ hl2]; simp only [Out.andThen_normal, execS_seq]
+  obtain ⟨loc4, h4, hl4⟩ := EE_name P c e fields (timeBlock P c osp e (levelBlock P c osp e ([] ++ [123]))) osp ons [] []
+    obuf osp ons self (ev ++ [.list [TransJsonEnc.nm "jsonEncoder.clone", .bool osp, .int ons]]) rec _ hl2
+  rw [h4]; simp only [Out.andThen_normal, execS_seq]
+  obtain ⟨loc5, h5, hl5⟩ := EE_caller P c e fields
+    (nameBlock P c osp e (timeBlock P c osp e (levelBlock P c osp e ([] ++ [123])))) osp ons [] []
+    obuf osp ons self (ev ++ [.list [TransJsonEnc.nm "jsonEncoder.clone", .bool osp, .int ons]]) rec _ hl4
+  rw [h5]; simp only [Out.andThen_normal, execS_seq]
+  rw [EE_message P c e fields _ _ _ _ _ _ _ _ _ _ rec _ hl5]; simp only [Out.andThen_normal, execS_seq]
+  rw [EE_ctx]; simp only [Out.andThen_normal, execS_seq]
+  rw [EE_fields P c e fields _ _ _ _ _ _ _ _ _ _ rec _ hl5]; simp only [Out.andThen_normal, execS_seq]
+  rw [EE_closeNs]; simp only [Out.andThen_normal, execS_seq]
+  rw [EE_stack P c e fields _ _ _ _ _ _ _ _ _ _ rec _ hl5]; simp only [Out.andThen_normal, execS_seq]
+  rw [EE_tail]
+  simp [entryBytes, afterFields, metaBytes]
+
+/-- the line is the model's: `Enc.encodeEntry` over `Entry.metaCalls` / `Entry.stackCalls` — the function `jsonLine` and
+    the theorems of C01 / C02 are stated over — whenever the sub-encoders and `addFields` do on the buffer what the
+    model's call trees say (`TransJsonEnc.EntryLink`, Proofs/TransJsonEntry.lean) -/
+theorem EncodeEntry_is_encodeEntry (P : Par) (c : ECfg) (e : EEnt) (cfg : Entry.Cfg) (ent : Entry.Ent)
+    (L : EntryLink P c e cfg ent) (fields : Val) (calls : List OC) (obuf : Bytes) (osp : Bool) (ons : Nat)
+    (hf : ∀ b : Bytes, (P.addFields fields osp ⟨b, ons, [], []⟩).buf = (runO osp ⟨b, ons⟩ calls).buf ∧
+      (P.addFields fields osp ⟨b, ons, [], []⟩).ns = ((runO osp ⟨b, ons⟩ calls).openNs : Int))
+    (b0 : Bytes) (sp0 : Bool) (ns0 : Int) (rb0 re0 : List Val) (self : Val) (ev : List Val) (fuel : Nat) :
+    ∃ fl, run (X P) (fuel + 1) "EncodeEntry" [e.val, fields] (eeFld c b0 sp0 ns0 rb0 re0 obuf osp ons self ev) =
+      .done [.bytes (encodeEntry osp (Entry.metaCalls cfg ent) ⟨obuf, ons⟩ calls (Entry.stackCalls cfg ent) c.lineEnding),
+             .list []] fl := by
+  have h := EncodeEntry_matches_source P c e fields b0 sp0 ns0 rb0 re0 obuf osp ons self ev fuel
+  rw [entryBytes_is_encodeEntry P c e cfg ent L osp ons obuf fields calls hf] at h
+  exact ⟨_, h⟩
 
 end ZapVerif.C02
